@@ -77,9 +77,10 @@ def runoutPlumb (count : Option Int) (i : Option Nat) : Option Int × Option Nat
 def blindEntry (i : Nat) : Int :=
   if cfg.n == 2 then getI cfg.blinds (if i == 0 then 1 else 0) else getI cfg.blinds i
 
-/-- `bets[i] * sign(blinds_or_straddles[j])`: what seat `i` has in front of him, counted only when
-    it is a genuine blind or straddle (a late-seated player's post has a negative entry) -/
-def positionKey (s : State) (i : Nat) : Int := getI s.bets i * sign (blindEntry cfg i)
+/-- `max(bets[i] * sign(blinds_or_straddles[j]), 0)`: what seat `i` has in front of him, counted only
+    when it is a genuine blind or straddle (a late-seated player's post has a negative entry and
+    counts for nothing, not even for breaking a tie) -/
+def positionKey (s : State) (i : Nat) : Int := max (getI s.bets i * sign (blindEntry cfg i)) 0
 
 /-- `min(l, key=…)` / `max(l, key=…)` as python evaluates them: keep the first element, replace it
     whenever a later one is strictly `better`; `none` on the empty list -/
